@@ -9,6 +9,7 @@ CONSTANTS
   InputOps = {}
   Entries = {"run", "call", "evaluate"}
   TracerStyles = {"none"}
+  Threadeds = {FALSE}
   Flags = {"fragile_capture"}
 INVARIANT Restored
 INVARIANT Contained
